@@ -309,7 +309,8 @@ static int accept_cb(const void * e, void * p)
 {
     h_priv_check(p, 1);
     record(e);
-    return nvisited++ == stop_at;
+    /* any non-zero value accepts the offered element: negative for odd positions */
+    return nvisited++ == stop_at ? h_stop_value(stop_at) : 0;
 }
 
 static int visit_cb(void * e, void * p)
